@@ -12,6 +12,10 @@ Decides the protocol agreement between the parent and the child process by code 
  * cloning an assertion under an identity (or empty) variable memo - what the parent does to the
    child's assertion trace - preserves its source including an attribute path and its payload
    (interpreted from source for every reference assertion class).
+ * every attribute of TestCaseExecutor that a setter can change after construction and that the
+   execution path reads reaches the child process, which uses every parameter it receives;
+ * _fix_assertion_trace, interpreted over a trace with assertions at binding and non-binding
+   positions, re-adds every assertion at its position with its source renamed.
 Equality of the executions themselves is not decided.
 """
 
